@@ -1,4 +1,4 @@
-import MitmVerif.Model.C36_Gate
+import MitmVerif.Model.C36_Conv
 import Driver.Proto
 open MitmVerif Driver MitmVerif.C36
 
@@ -104,8 +104,21 @@ def gateChar (cs : List Char) (i : Nat) (v : Value) : Char :=
   match gate v with
   | .rejectV => 'V'
   | .rejectX => 'X'
-  | .pass _ => if c = 'V' || c = 'X' || c = 'w' || c = 'y' then '!' else c
-  | .defer => if c = 'V' || c = 'X' || c = 'v' || c = 'x' then '!' else c
+  | .pass ty =>
+    if c = 'V' || c = 'X' || c = 'w' || c = 'y' then '!'
+    else match v with
+      | .dict kvs => if shape ty kvs = .bad && c = 'o' then '#' else c      -- '#': accepted although the shape forbids it
+      | _ => c
+  | .defer =>
+    let dflt : Char := if c = 'V' || c = 'X' || c = 'v' || c = 'x' then '!' else c
+    match v with
+    | .dict kvs =>
+      match convert kvs with
+      | .refusedV => 'w'
+      | .refusedX => 'y'
+      | .current ty d => if shape ty d = .bad && c = 'o' then '#' else dflt
+      | .notModelled => dflt
+    | _ => dflt
   | .deferShape => c
 
 /-- the classes of the dict records the reader gets to see, in order (stops like the reader stops) -/
